@@ -48,7 +48,7 @@ func c05Populate(what string, items []string, prefix string) ociregistry.Interfa
 		}
 		if prefix != "" {
 			// siblings that share a textual prefix, and unrelated repositories
-			for _, s := range []string{"pq/x", "o/y", "p0", "q/p/z"} {
+			for _, s := range []string{"pq/x", "o/y", "p0", "q/p/z", "p", "p-tools/x", "p.d/y", "p--a", "p_x/y"} { // some sort between "p" and "p/"
 				m.PushBlob(ctx, s, desc, bytes.NewReader(blob))
 			}
 		}
@@ -199,32 +199,40 @@ func (*c05) Impl(c Case) []string {
 			} else {
 				it = reg.Tags(ctx, c05Repo, s.start)
 			}
-			var yielded []string
-			calls, end := 0, "done"
-			declined := false
-			it(func(item string, err error) bool {
-				calls++
-				if declined {
-					end = "called-after-decline"
-					return false
-				}
-				if end == "error" {
-					end = "called-after-error"
-					return false
-				}
-				if err != nil {
-					end = "error"
-					return false
-				}
-				yielded = append(yielded, tok(item))
-				if s.k >= 0 && len(yielded) >= s.k {
-					end = "stopped"
-					declined = true
-					return false
-				}
-				return true
-			})
-			return fmt.Sprintf("yield [%s] end=%s calls=%d", strings.Join(yielded, " "), end, calls)
+			run := func() string {
+				var yielded []string
+				calls, end := 0, "done"
+				declined := false
+				it(func(item string, err error) bool {
+					calls++
+					if declined {
+						end = "called-after-decline"
+						return false
+					}
+					if end == "error" {
+						end = "called-after-error"
+						return false
+					}
+					if err != nil {
+						end = "error"
+						return false
+					}
+					yielded = append(yielded, tok(item))
+					if s.k >= 0 && len(yielded) >= s.k {
+						end = "stopped"
+						declined = true
+						return false
+					}
+					return true
+				})
+				return fmt.Sprintf("yield [%s] end=%s calls=%d", strings.Join(yielded, " "), end, calls)
+			}
+			first := run()
+			// the same sequence value iterated again is another iteration of the same listing
+			if second := run(); second != first {
+				return first + " again: " + second
+			}
+			return first
 		})
 	}
 	return out
